@@ -17,9 +17,9 @@ import random
 
 from . import pipeline as P
 
-EXPRS1 = ["1", "x", "foo(2)", "foo(foo(3))", "g(foo(4))", '"s"', '"""multi\n   line"""', "foo('''a\n      b\n''')", "f'{x}!'", "[foo(5), foo(6)]", "(y for y in foo(7))",
+EXPRS1 = ["foo(1)[0]", "foo(1).real", "foo(1)(3)", "-foo(1)", "2 ** foo(3)", "not foo(1)", "foo(1) if foo(2) else foo(3)", "1", "x", "foo(2)", "foo(foo(3))", "g(foo(4))", '"s"', '"""multi\n   line"""', "foo('''a\n      b\n''')", "f'{x}!'", "[foo(5), foo(6)]", "(y for y in foo(7))",
           "lambda: foo(8)", "x if c else foo(9)", "-foo(1)", "foo(1) + foo(2)", "foo(\n    1\n)", "foo(x)(foo(y))", "foo((a for a in b))", "foo(f'''m\n    {x}\n''')", "foo(*args)", "foo(k=1)", "foo(1, 2)"]
-EXPRS2 = ["foo(1, 2)", "foo(foo(1, 2), 3)", "foo(x, foo(y, z))", "foo(1)", "foo('''p\n  q''', 2)", "foo(a, b) + foo(c, d)", "foo(\n    a,\n    b,\n)", "[foo(1, 2), foo(3, 4), foo(5)]", "foo(a, *b)", "foo(a, b, c)"]
+EXPRS2 = ["foo(1, 2)[0]", "foo(1, 2).real", "foo(1, 2)(3)", "-foo(1, 2)", "foo(1, 2) ** foo(3, 4)", "x < foo(1, 2) < y", "foo(1, 2)", "foo(foo(1, 2), 3)", "foo(x, foo(y, z))", "foo(1)", "foo('''p\n  q''', 2)", "foo(a, b) + foo(c, d)", "foo(\n    a,\n    b,\n)", "[foo(1, 2), foo(3, 4), foo(5)]", "foo(a, *b)", "foo(a, b, c)"]
 FRAMES = [
     "r = {E}\n",
     "def f(x, c):\n    r = {E}\n    return r\n",
@@ -50,6 +50,16 @@ CASES = [
     ("foo({{a}}, {{b}})", 2, "bar({{b}}, {{a}})", lambda a, b: mk("bar", b, a)),
     ("foo({{a}}, {{b}})", 2, "{{a}} + {{b}}", lambda a, b: ast.BinOp(left=a, op=ast.Add(), right=b)),
     ("foo({{a}}, {{b}})", 2, "foo({{a}}, {{b}})", lambda a, b: mk("foo", a, b)),
+    # replacements that are not a single primary: bare tuples, conditional, lambda, comparison, unary, boolean, starred-free generator
+    ("foo({{a}}, {{b}})", 2, "{{a}}, {{b}}", lambda a, b: ast.Tuple(elts=[a, b], ctx=ast.Load())),
+    ("foo({{a}})", 1, "{{a}},", lambda a: ast.Tuple(elts=[a], ctx=ast.Load())),
+    ("foo({{a}}, {{b}})", 2, "{{a}} if {{b}} else None", lambda a, b: ast.IfExp(test=b, body=a, orelse=ast.Constant(value=None))),
+    ("foo({{a}})", 1, "lambda: {{a}}", lambda a: ast.Lambda(args=ast.arguments(posonlyargs=[], args=[], kwonlyargs=[], kw_defaults=[], defaults=[]), body=a)),
+    ("foo({{a}}, {{b}})", 2, "{{a}} < {{b}}", lambda a, b: ast.Compare(left=a, ops=[ast.Lt()], comparators=[b])),
+    ("foo({{a}})", 1, "not {{a}}", lambda a: ast.UnaryOp(op=ast.Not(), operand=a)),
+    ("foo({{a}}, {{b}})", 2, "{{a}} or {{b}}", lambda a, b: ast.BoolOp(op=ast.Or(), values=[a, b])),
+    ("foo({{a}})", 1, "{{a}} ** 2", lambda a: ast.BinOp(left=a, op=ast.Pow(), right=ast.Constant(value=2))),
+    ("foo({{a}})", 1, "await_({{a}})[0]", lambda a: ast.Subscript(value=mk("await_", a), slice=ast.Constant(value=0), ctx=ast.Load())),
 ]
 
 
@@ -176,6 +186,15 @@ def check(src, case, count):
             yield m
     mset = set(matches)
     isolated = [m for m in matches if not any(a in mset for a in ancestors(m)) and not any(d in mset for d in ast.walk(m) if d is not m)]
+    # the expected tree must be expressible as text at all (a starred binding inside an operator is not): otherwise there is no oracle
+    for m in matches:
+        want = build(*m.args)
+        try:
+            back = ast.parse(ast.unparse(ast.fix_missing_locations(ast.Expr(value=want)))).body[0].value
+            if dump(back) != dump(want):
+                return []
+        except Exception:  # noqa: BLE001
+            pass
     o = Oracle(arity, build)
     o.walk(s_tree, r_tree)
     if o.bad:
